@@ -24,6 +24,9 @@ type msgT struct {
 	Src      int    `json:"src"`
 	V        svJSON `json:"v"`
 	Blocking bool   `json:"blocking,omitempty"`
+	// for k=err: which error the source hands to ReportError: "" an ordinary one, "nil" a nil
+	// error, "panic" one whose Error method panics, "nilptr" a nil pointer of an error type
+	EV string `json:"ev,omitempty"`
 }
 
 type svJSON struct {
@@ -248,7 +251,7 @@ func (w *world) onErr(ctx context.Context, err error, old, nw *Cfg) {
 	switch {
 	case errors.Is(err, errVerify):
 		kind = 1
-	case errors.Is(err, errSource):
+	case errors.Is(err, errSource), isOddErr(err), err != nil && strings.HasPrefix(err.Error(), "error reported by source"):
 		kind = 2
 	}
 	rej := "None"
@@ -600,7 +603,7 @@ func (w *world) execStart(l label) {
 				}
 				return errClass(err)
 			case "err":
-				return errClass(s.wa.ReportError(t.ctx, errSource))
+				return errClass(s.wa.ReportError(t.ctx, reportedErr(m.EV)))
 			}
 			s.wa.Done(t.ctx)
 			return "RetUnit", "unit"
